@@ -584,4 +584,105 @@ theorem prepRows_err {nrows ncols : Nat} {J : List Bool} {cons : Option Cons} {r
       | none => cases h; right; rfl
       | some c => cases c <;> cases h; left; rfl
 
+/-! ## independence of the initial guess -/
+
+theorem agreeOff_length : ∀ (J : List Bool) (a b : Vec), agreeOff J a b → J.length = a.length ∧ J.length = b.length := by
+  intro J
+  induction J with
+  | nil => intro a b h; cases a <;> cases b <;> simp_all [agreeOff]
+  | cons c m ih =>
+    intro a b h
+    cases a with
+    | nil => cases c <;> simp [agreeOff] at h
+    | cons x xs =>
+      cases b with
+      | nil => cases c <;> simp [agreeOff] at h
+      | cons z zs =>
+        cases c with
+        | true => have := ih xs zs (by simpa [agreeOff] using h); simp; omega
+        | false => have := ih xs zs (by simp [agreeOff] at h; exact h.2); simp; omega
+
+theorem agreeOff_scatterAdd : ∀ (J : List Bool) (y lhs : Vec), J.length = lhs.length → agreeOff J (scatterAdd J y lhs) lhs := by
+  intro J
+  induction J with
+  | nil => intro y lhs h; cases lhs <;> simp_all [scatterAdd, agreeOff]
+  | cons c m ih =>
+    intro y lhs h
+    cases lhs with
+    | nil => simp at h
+    | cons l ls =>
+      simp at h
+      cases c <;> cases y <;> simp [scatterAdd, agreeOff, ih _ _ h]
+
+theorem agreeOff_trans : ∀ (J : List Bool) (a b c : Vec), agreeOff J a b → agreeOff J b c → agreeOff J a c := by
+  intro J
+  induction J with
+  | nil => intro a b c h1 h2; cases a <;> cases b <;> cases c <;> simp_all [agreeOff]
+  | cons k m ih =>
+    intro a b c h1 h2
+    cases a with
+    | nil => cases k <;> simp [agreeOff] at h1
+    | cons x xs =>
+      cases b with
+      | nil => cases k <;> simp [agreeOff] at h1
+      | cons z zs =>
+        cases c with
+        | nil => cases k <;> simp [agreeOff] at h2
+        | cons w ws =>
+          cases k with
+          | true => simp [agreeOff] at h1 h2 ⊢; exact ih _ _ _ h1 h2
+          | false => simp [agreeOff] at h1 h2 ⊢; exact ⟨h1.1.trans h2.1, ih _ _ _ h1.2 h2.2⟩
+
+theorem eq_scatterAdd_of_agreeOff : ∀ (J : List Bool) (x w : Vec), agreeOff J x w →
+    x = scatterAdd J (vsub (sel J x) (sel J w)) w := by
+  intro J
+  induction J with
+  | nil => intro x w h; cases x <;> cases w <;> simp_all [agreeOff, scatterAdd]
+  | cons k m ih =>
+    intro x w h
+    cases x with
+    | nil => cases k <;> simp [agreeOff] at h
+    | cons a as =>
+      cases w with
+      | nil => cases k <;> simp [agreeOff] at h
+      | cons b bs =>
+        cases k with
+        | true =>
+          simp [agreeOff] at h
+          simp only [sel, vsub, scatterAdd]
+          rw [← ih as bs h]
+          congr 1; grind
+        | false =>
+          simp [agreeOff] at h
+          simp only [sel, scatterAdd]
+          rw [← ih as bs h.2, h.1]
+
+theorem vsub_length : ∀ (a b : Vec), a.length = b.length → (vsub a b).length = a.length := by
+  intro a
+  induction a with
+  | nil => intro b h; cases b <;> simp_all [vsub]
+  | cons x xs ih =>
+    intro b h
+    cases b with
+    | nil => simp at h
+    | cons y ys => simp at h; simp [vsub, ih ys h]
+
+theorem vsub_left_cancel : ∀ (a b c : Vec), a.length = b.length → a.length = c.length → vsub a b = vsub a c → b = c := by
+  intro a
+  induction a with
+  | nil => intro b c h1 h2 _; cases b <;> cases c <;> simp_all
+  | cons x xs ih =>
+    intro b c h1 h2 h
+    cases b with
+    | nil => simp at h1
+    | cons y ys =>
+      cases c with
+      | nil => simp at h2
+      | cons z zs =>
+        simp at h1 h2
+        simp [vsub] at h
+        have := ih ys zs h1 h2 h.2
+        subst this
+        congr 1; grind
+
 end NutilsVerif.C14
